@@ -118,6 +118,8 @@ type Opts struct {
 	AllowMissing   bool          `json:"allowMissing,omitempty"`
 	GenID          bool          `json:"genID,omitempty"`
 	IDCallback     bool          `json:"idCallback,omitempty"`
+	// PlainCheckErr (with ExpectCheck): the check fails with a plain Go error instead of a status error.
+	PlainCheckErr bool `json:"plainCheckErr,omitempty"`
 	// IDIntoField (with IDCallback): the id callback also writes the id into this string field of the message that
 	// was handed to the write, the way a model fills in the id of what it creates.
 	IDIntoField string     `json:"idIntoField,omitempty"`
@@ -219,6 +221,8 @@ type Result struct {
 	CreatedCBs int      // calls of the created callback
 	BeforeN    int      // calls of the InterceptBefore function
 	AfterN     int      // calls of the InterceptAfter function
+	// IsPlainCheckErr: the returned error is (wraps) ErrPlainCheck
+	IsPlainCheckErr bool
 
 	written proto.Message // the message handed to the write (the id callback may fill in the id)
 }
@@ -337,6 +341,24 @@ func renderSorted(l []proto.Message) string {
 	return strings.Join(ss, "|")
 }
 
+// checkCodeOf is the status code a failing expected-check shows: the workload's status error, or Unknown for the
+// plain Go error.
+func checkCodeOf(o Opts) codes.Code {
+	if o.PlainCheckErr {
+		return codes.Unknown
+	}
+	return CheckCode
+}
+
+// checkErrIdentity: when the failing expected-check is the only reason a call can fail and it returned a plain Go
+// error, that error itself is what the call returns (errors.Is), as documented on WithExpectedCheck.
+func checkErrIdentity(op Op, o Opts, fail []codes.Code, checkFails bool, got Result) (Verdict, bool) {
+	if checkFails && o.PlainCheckErr && len(fail) == 1 && got.Code == codes.Unknown && !got.IsPlainCheckErr {
+		return Verdict{Clause: "check-error-identity", Why: fmt.Sprintf("%v failed because its expected-check returned a plain error; the call returned %q, which is not (and does not wrap) that error", op, got.Err)}, true
+	}
+	return Verdict{}, false
+}
+
 func codeIn(c codes.Code, set []codes.Code) bool {
 	for _, x := range set {
 		if x == c {
@@ -383,6 +405,7 @@ func (m *Model) applyWrite(s State, op Op, got Result) (Verdict, State) {
 		// id generation gives up (Aborted) when the random source keeps producing ids that are in use
 		mayFail = append(mayFail, codes.Aborted)
 	}
+	checkFails := false
 	var cur Item
 	present := false
 	if !generated {
@@ -417,13 +440,17 @@ func (m *Model) applyWrite(s State, op Op, got Result) (Verdict, State) {
 	}
 	if o.ExpectCheck && m.Type.Check != nil {
 		if !m.Type.Check(old) {
-			fail = append(fail, CheckCode)
+			fail = append(fail, checkCodeOf(o))
+			checkFails = true
 		}
 	}
 
 	if len(fail) > 0 {
 		if got.Code == codes.OK {
 			return Verdict{Clause: "accepted-invalid", Why: fmt.Sprintf("%v succeeded (returned %s) but the model says it must fail with one of %v", op, vk.JSON(got.Msg), fail)}, s
+		}
+		if v, bad := checkErrIdentity(op, o, fail, checkFails, got); bad {
+			return v, s
 		}
 		if !codeIn(got.Code, fail) && !codeIn(got.Code, mayFail) {
 			// (a call with several reasons to fail may report any of them, e.g. id generation giving up before a
@@ -581,8 +608,10 @@ func (m *Model) applyDelete(s State, op Op, got Result) (Verdict, State) {
 		return Verdict{OK: true}, s
 	}
 	var fail []codes.Code
+	checkFails := false
 	if o.ExpectCheck && m.Type.Check != nil && !m.Type.Check(cur.Msg) {
-		fail = append(fail, CheckCode)
+		fail = append(fail, checkCodeOf(o))
+		checkFails = true
 	}
 	if o.ExpectValue != nil && !proto.Equal(cur.Msg, o.ExpectValue) {
 		fail = append(fail, codes.FailedPrecondition)
@@ -590,6 +619,9 @@ func (m *Model) applyDelete(s State, op Op, got Result) (Verdict, State) {
 	if len(fail) > 0 {
 		if got.Code == codes.OK {
 			return Verdict{Clause: "accepted-invalid", Why: fmt.Sprintf("%v succeeded but the model says it must fail with one of %v", op, fail)}, s
+		}
+		if v, bad := checkErrIdentity(op, o, fail, checkFails, got); bad {
+			return v, s
 		}
 		if !codeIn(got.Code, fail) {
 			return Verdict{Clause: "error-class", Why: fmt.Sprintf("%v failed with %v (%s), model allows %v", op, got.Code, got.Err, fail)}, s
